@@ -21,6 +21,28 @@ Theorem C04_set_sorted_after_add :
   forall s set, Homog (set ++ [s]) -> ordered (sol_add s set) /\ Permutation (sol_add s set) (set ++ [s]).
 Proof. intros s set H. split; [apply sort_ordered; exact H|apply sort_perm]. Qed.
 
+(* ... lifted to EVERY sequence of addSolution calls: the set is a permutation of everything added and, once
+   something was added, it is in order (so its head is the best solution found so far) *)
+Theorem C04_set_sorted_for_every_add_sequence :
+  forall sols set0, Homog (set0 ++ sols) ->
+    let set := fold_left (fun st s => sol_add s st) sols set0 in
+    Permutation set (set0 ++ sols) /\ (sols <> [] -> ordered set).
+Proof.
+  induction sols as [|s t IH]; intros set0 H; cbn [fold_left].
+  - split; [rewrite app_nil_r; apply Permutation_refl | intros C; contradiction C; reflexivity].
+  - assert (P1 : Permutation (sol_add s set0) (set0 ++ [s])) by apply sort_perm.
+    assert (P2 : Permutation (sol_add s set0 ++ t) (set0 ++ s :: t)).
+    { replace (set0 ++ s :: t) with ((set0 ++ [s]) ++ t) by (rewrite <- app_assoc; reflexivity).
+      apply Permutation_app_tail. exact P1. }
+    assert (H' : Homog (sol_add s set0 ++ t)).
+    { intros a b Ha Hb. apply H; eapply Permutation_in; eauto. }
+    destruct (IH (sol_add s set0) H') as [Q O]. split.
+    + eapply perm_trans; [exact Q|exact P2].
+    + intros _. destruct t as [|u t'].
+      * cbn [fold_left]. apply sort_ordered. intros a b Ha Hb. apply H; assumption.
+      * apply O. discriminate.
+Qed.
+
 (* the problem definition hands out the best solution first *)
 Theorem C04_top_is_best :
   forall s set t, Homog (set ++ [s]) -> sol_top (sol_add s set) = Some t ->
@@ -145,6 +167,7 @@ Proof. exact clearance_path_cost_is_min. Qed.
 Print Assumptions C04_operator_lt_is_lexicographic.
 Print Assumptions C04_strict_weak_order.
 Print Assumptions C04_set_sorted_after_add.
+Print Assumptions C04_set_sorted_for_every_add_sequence.
 Print Assumptions C04_top_is_best.
 Print Assumptions C04_best_never_worse.
 Print Assumptions C04_path_length_ge_direct_distance.
